@@ -24,8 +24,15 @@ def _discover():
 _discover()
 
 
+ARENA_FAMILY = ("C01", "C02", "C03", "C05", "C07", "C10", "C13", "C14", "C15", "C17", "C18")
+
+
 def replay(pid, path):
     import json
+    if pid in ARENA_FAMILY:
+        # re-executes the recorded behaviour on the current tree and evaluates the clause again
+        import replay_arena
+        return replay_arena.replay(pid, path)
     with open(path) as f:
         obj = json.load(f)
     print(json.dumps(obj, indent=1)[:20000])
